@@ -139,8 +139,13 @@ ImplEnumLabelsP == IF First THEN TRUE ELSE
            /\ (~St.op[3] => out = Relabel(PolyOf(r.ts), r.map))
            \* ancillas created by a reduction (hook H1): strictly above every reported variable, not a mapped label
            /\ \A z \in ToSet(St.cert_z) : z >= n /\ z \notin {r.map[x] : x \in DOMAIN r.map})
-AllOK == ImplValueP /\ ImplInfoSameP /\ ImplCopySameP /\ TermsMatchP /\ KindMatchP /\ ImplNoRaiseP /\ ImplUpperBoundsP /\ ImplMappingBijectionP /\ ImplStoredCanonicalP
+\* a constraint method records a polynomial of its own, getters and info dictionaries are independent objects: the marker
+\* label the harness writes into the ARGUMENT after the call / into getter results / into info dictionaries never shows
+\* up in a model's terms, mapping or recorded constraints (`poked` is that observation, made on the projection)
+ImplNoAliasP == IF First THEN TRUE ELSE \A ss \in Slots : ~St.slots[ss].poked
+AllOK == ImplNoAliasP /\ ImplValueP /\ ImplInfoSameP /\ ImplCopySameP /\ TermsMatchP /\ KindMatchP /\ ImplNoRaiseP /\ ImplUpperBoundsP /\ ImplMappingBijectionP /\ ImplStoredCanonicalP
          /\ ImplRefreshExactP /\ ImplAncCoversP /\ ImplAncFreshP /\ ImplUnchangedOthersP /\ ImplEnumLabelsP
+ImplNoAlias == Clause("ImplNoAlias", ImplNoAliasP)
 ImplValue == Clause("ImplValue", ImplValueP)
 ImplInfoSame == Clause("ImplInfoSame", ImplInfoSameP)
 ImplCopySame == Clause("ImplCopySame", ImplCopySameP)
